@@ -98,6 +98,7 @@ def wsgi_call(app, method: str, path: str, body: bytes | None = b"", headers: di
         env.pop("CONTENT_TYPE", None)
     if not content_length:
         env.pop("CONTENT_LENGTH", None)
+    env["wsgi.errors"] = io.StringIO()          # falcon prints tracebacks of unhandled exceptions there
     st: dict = {}
 
     def start_response(status, response_headers, exc_info=None):
@@ -365,12 +366,15 @@ def zstd_lie_from(sizeless: bytes, declared: int) -> bytes:
     return sizeless[:4] + bytes([new_fhd]) + sizeless[5:pos] + struct.pack("<Q", declared) + sizeless[pos:]
 
 
-def gzip_repad(member: bytes, total: int) -> bytes | None:
-    """Insert an FEXTRA field into a (possibly damaged) gzip member so that the wire size is exactly ``total``."""
+def gzip_repad(member: bytes, total: int, use_name: bool = False) -> bytes | None:
+    """Insert an FEXTRA field (or, for large paddings, an FNAME field) into a possibly damaged gzip member so
+    that the wire size is exactly ``total``."""
     extra = total - len(member)
     if extra == 0:
         return member
-    if extra < 2 or extra - 2 > 0xFFFF or len(member) < 10:
+    if extra < 1 or len(member) < 10:
         return None
-    return member[:3] + bytes([member[3] | 4]) + member[4:10] + struct.pack("<H", extra - 2) + b"\x00" * (extra - 2) \
-        + member[10:]
+    if extra >= 2 and extra - 2 <= 0xFFFF and not use_name:
+        return member[:3] + bytes([member[3] | 4]) + member[4:10] + struct.pack("<H", extra - 2) \
+            + b"\x00" * (extra - 2) + member[10:]
+    return member[:3] + bytes([member[3] | 8]) + member[4:10] + b"n" * (extra - 1) + b"\x00" + member[10:]
